@@ -415,21 +415,14 @@ theorem rank_labels_in_seed_set (values : List Int) (scores : List (List Rat)) (
     have := (this x hx).2
     omega
 
-theorem rank_rows_partial (values : List Int) (scores : List (List Rat)) (o : Rank.Out)
-    (h : Rank.fitCore values scores = .ok o) (hnn : ∀ r ∈ scores, ∀ x ∈ r, 0 ≤ x) :
-    (∀ r ∈ scores.map normalizeRow, Spec.rowOK 0 r = true) ∧ (∀ row ∈ o.probs, ∀ x ∈ row, 0 ≤ x) :=
-  ⟨Rank.normalised_rows_ok scores hnn, Rank.probs_nonneg values scores o h hnn⟩
-
-/-- Full statement for the rows of `probs_` of a RankClassifier: moving the columns of the normalised scores
-    to the label values keeps them probability rows.  Proved: the normalised rows are probability rows and the
-    moved rows are non-negative (`rank_rows_partial`); missing: the sum of a moved row equals the sum of the
-    normalised row (a re-indexing of a finite sum along the strictly increasing list of labels). It is checked
-    on every implementation output by the `spec` lines (`c13.spec_rank`). -/
-def rank_rows_full : Prop :=
-  ∀ (values : List Int) (scores : List (List Rat)) (o : Rank.Out),
-    Rank.fitCore values scores = .ok o → (∀ r ∈ scores, ∀ x ∈ r, 0 ≤ x) →
-    (∀ r ∈ scores, r.length = (uniqueLabels values).length) →
-    ∀ row ∈ o.probs, Spec.rowOK 0 row = true
+/-- ★ **probability rows** (RankClassifier): with non-negative scores, one column per class, every row of
+    `probs_` — the normalised scores with their columns moved to the label values — is non-negative and sums to
+    1, or to 0 when all scores of the node are null. -/
+theorem rank_rows (values : List Int) (scores : List (List Rat)) (o : Rank.Out)
+    (h : Rank.fitCore values scores = .ok o) (hnn : ∀ r ∈ scores, ∀ x ∈ r, 0 ≤ x)
+    (hlen : ∀ r ∈ scores, r.length = (uniqueLabels values).length) :
+    ∀ row ∈ o.probs, Spec.rowOK 0 row = true :=
+  Rank.probs_rows_ok values scores o h hnn hlen
 
 example : (Rank.fitCore [5,-1,2,-1] [[1/2,0],[1/4,1/4],[0,1],[0,0]]).map (·.labels) = .ok [2,2,5,2] := by
   decide +kernel
